@@ -349,6 +349,17 @@ def _worker(job):
                 routes.append((" [tokens held by the caller, looked at again after later runs on the same tokenizer and on copy.copy() siblings (stream %r)]" % (other,),
                                [[s_, e_, list(d_)] for (d_, s_, e_) in held]))
                 stats["evals"] += 2
+                # two tokenizers of the same configuration, their generators advanced alternately: no state is shared between instances
+                import itertools as _it
+                va_, vb_ = {"cur": v}, {"cur": other}
+                ta_, tb_ = StreamTokenizerProxy(cfg, va_), StreamTokenizerProxy(cfg, vb_)
+                ga_, gb_ = ta_.tokenize(ListSource(len(v)), generator=True), tb_.tokenize(ListSource(len(other)), generator=True)
+                ia_ = []
+                for xa_, xb_ in _it.zip_longest(ga_, gb_):
+                    if xa_ is not None:
+                        ia_.append([xa_[1], xa_[2], list(xa_[0])])
+                routes.append((" [two tokenizer objects of this configuration advanced alternately; the other one reads %r]" % (other,), ia_))
+                stats["evals"] += 1
                 # frames of other types: valid frames are (index, True) pairs, invalid ones a zoo of falsy / zero-length objects
                 # (a frame is whatever the source returns; only None ends the stream)
                 from auditok.core import StreamTokenizer as _ST
